@@ -1097,6 +1097,33 @@ func PipelineCases() []*Case {
 		f.Imports = []Import{{Pkg: "j5.list.v1"}}
 		add("list-method", f)
 	}
+	// list-shaped requests on methods whose response is not a list: no response at all, an empty one,
+	// one without an array, one whose array holds scalars
+	for _, shape := range []string{"no-response", "empty-response", "no-array", "scalar-array", "two-arrays"} {
+		f := file("t/v1", "a")
+		item := obj("Item", &Field{Name: "name", T: T(TString), Attrs: []string{"listRules.searching.searchable = true"}})
+		f.Add(item)
+		listRef := func(name, file string) *Type {
+			return &Type{K: TObject, Ref: &Ref{Qualifier: "j5.list.v1", To: &Decl{Kind: DObject, Name: name, File: &File{Dir: "j5/list/v1", Name: file}}}}
+		}
+		m := &Method{Name: "ListItems", Verb: "GET", Path: "/items", Request: []*Field{{Name: "page", T: listRef("PageRequest", "page")}, {Name: "query", T: listRef("QueryRequest", "query")}}}
+		switch shape {
+		case "empty-response":
+			m.HasResponse = true
+		case "no-array":
+			m.HasResponse = true
+			m.Response = []*Field{fld("item", RefTo(item, "")), {Name: "page", T: listRef("PageResponse", "page")}}
+		case "scalar-array":
+			m.HasResponse = true
+			m.Response = []*Field{fld("names", ArrayOf(T(TString))), {Name: "page", T: listRef("PageResponse", "page")}}
+		case "two-arrays":
+			m.HasResponse = true
+			m.Response = []*Field{fld("items", ArrayOf(RefTo(item, ""))), fld("more", ArrayOf(RefTo(item, ""))), {Name: "page", T: listRef("PageResponse", "page")}}
+		}
+		f.Add(&Service{Name: "Item", BasePath: "/t/v1", Methods: []*Method{m}})
+		f.Imports = []Import{{Pkg: "j5.list.v1"}}
+		add("list-request:"+shape, f)
+	}
 	// names that case conversions alter: acronyms, digits
 	for _, name := range []string{"PostFooID", "FetchURL", "Sync2fa", "GetV2Thing", "HTTPPing", "FooB"} {
 		{
